@@ -74,6 +74,11 @@ def asdict(x):
     return {'a': fsum(x) % 3, 'b': x}
 
 
+def astupdict(x):
+    """a mapping whose keys are tuples (a table keyed by (row, column)): pluck(('r', 'c')) looks up ONE key"""
+    return {('r', 'c'): fsum(x) % 5, ('r', 'd'): fsum(x), 'r': -1, 'c': -2}
+
+
 def x_pair(x):
     return (x, x)
 
@@ -104,10 +109,10 @@ def x_repr(x):
 
 # functions of the "exotic value" programs (vf/progs.py XGen): total on None, falsy values, strings and nested tuples.
 # They are looked up through the same tables as the others; the ordinary generator draws from the STD_* name lists.
-MAPS = {'x_pair': x_pair, 'x_nonefirst': x_nonefirst, 'x_totuple': x_totuple, 'addk': addk, 'asdict': asdict, 'fsum': fsum, 'inc': inc, 'dbl': dbl, 'half': half, 'mod3': mod3, 'neg': neg,
+MAPS = {'astupdict': astupdict, 'x_pair': x_pair, 'x_nonefirst': x_nonefirst, 'x_totuple': x_totuple, 'addk': addk, 'asdict': asdict, 'fsum': fsum, 'inc': inc, 'dbl': dbl, 'half': half, 'mod3': mod3, 'neg': neg,
         'wrap': wrap, 'pair': pair, 'triple': triple, 'rep': rep, 'size': size, 'ident': ident}
 # output kind of each map function: 'same' keeps the input kind
-MAP_KIND = {'x_pair': ('tup', 2), 'x_nonefirst': ('tup', 2), 'x_totuple': ('tup', 1), 'addk': 'int', 'asdict': 'dict', 'fsum': 'int', 'inc': 'same', 'dbl': 'int', 'half': 'int', 'mod3': 'int', 'neg': 'int',
+MAP_KIND = {'astupdict': 'opaque', 'x_pair': ('tup', 2), 'x_nonefirst': ('tup', 2), 'x_totuple': ('tup', 1), 'addk': 'int', 'asdict': 'dict', 'fsum': 'int', 'inc': 'same', 'dbl': 'int', 'half': 'int', 'mod3': 'int', 'neg': 'int',
             'wrap': ('tup', 1), 'pair': ('tup', 2), 'triple': ('tup', 3), 'rep': ('tup', None),
             'size': 'int', 'ident': 'same'}
 
